@@ -50,8 +50,9 @@ class A(dns.rdata.Rdata):
 
     def _to_wire(self, file, compress=None, origin=None, canonicalize=False):
         # Type A is not one of the types listed in RFC 4034 section 6.2, so the
-        # domain is not downcased in the DNSSEC canonical form (RFC 3597 section 7).
-        self.domain.to_wire(file, compress, origin, False)
+        # domain is not downcased in the DNSSEC canonical form (RFC 3597 section 7), and as
+        # the RDATA format is class-specific it must not be compressed (RFC 3597 section 4).
+        self.domain.to_wire(file, None, origin, False)
         pref = struct.pack("!H", self.address)
         file.write(pref)
 
